@@ -32,12 +32,120 @@ def trusted_base(pid, axioms):
 
 HOOK_COMMITS = []
 
+RT_TRUST = [
+    "regexp: only a byte-level fragment of RE2 is modelled (classes, ., concatenation, alternation, * + ? greedy/lazy, groups); "
+    "rules outside it mark the case 'unsup' (counted, not compared); the router only asks whether a whole value is in the rule's language",
+    "interceptor functions are parameters of the theorems; the harness uses digit/word/any and five custom predicates",
+    "Go maps are association lists; only sorted projections are observed; slices.SortStableFunc = stable insertion sort",
+]
+
+def rt(n_quick, n_thorough, tags, rule, **kw):
+    d = {"quick": {"n": n_quick}, "thorough": {"n": n_thorough, "shards": 8}, "nontrivial_tags": tags, "rule": rule,
+         "trust": RT_TRUST + kw.pop("trust", []), "assumptions": kw.pop("assumptions", [])}
+    d.update(kw)
+    return d
+
+TECH = "Coq 8.16 theorems over an executable Gallina model; model tied to /repo by differential correspondence (Go harness vs extracted model) on every run; property oracles extracted from the same development judge the implementation's observations"
+
 PROPS = {
+    "C01": rt(700, 12000, ["serve-with-params", "serve-user"],
+        "random route tables (1-12 routes, shared prefixes, sibling parameter branches, '-' names, interceptors, regexps) after Handle/Remove/Clean histories; "
+        "6-30 probes per table (instantiated patterns, mutated paths, raw bytes); non-trivial = a probe that captured parameters or reached a user handler",
+        props=["TreeMatch"],
+        level_text="Theorems over every tree, path and parameter set of the Gallina model: C01_match_children_sound (a match is a walk through child segments whose seg_match accepted, parameters only ever lose abandoned keys), C01_seg_match_sound (a segment consumes literal text byte for byte / a value its constraint accepts followed by its literal suffix), C01_404_no_new_params. The statement against the pattern text (path = pattern instantiated, keys exactly the capturing ones) is decided on the implementation by the extracted oracle inst_match/same_keys over an independent tokenizer.",
+        level_note="partial: the theorems quantify over arbitrary trees but the link 'walk => pattern instantiation' needs the tree invariants I1/I2/I7 (labels spell the pattern, names distinct along a chain), which are checked at run time on every reached state through the state-dump correspondence, not proved preserved by add/remove/clean.",
+        partial=["C01_dispatch_sound_full (needs Inv preservation by add_segment/split/remove/clean)"]),
+    "C02": rt(700, 12000, ["serve-with-params", "serve-user"],
+        "add-only tables of 1-14 routes in random registration orders incl. >=5 literal siblings; probes as C01, ASCII; the table-only resolver `resolve` (Spec/Resolve.v) is evaluated on every probe",
+        props=["TreeMatch"],
+        level_text="C02_shortest_capture: for every matcher function, suffix and path, find_split returns the SHORTEST accepted value followed by the literal suffix (no widening) - proved for all inputs. The full refinement 'match_children on the tree built from a table = outcomes(table)' is stated as the executable resolver Spec/Resolve.v and decided on the implementation on every probe.",
+        level_note="partial: kind-priority / first-byte-index / radix-split refinement to the table resolver (Repr invariant) is not proved; it is checked by evaluating the extracted resolver against implementation and model.",
+        partial=["C02_priority (refinement tree -> outcomes) not proved"]),
+    "C03": rt(350, 6000, ["remove", "clean"],
+        "histories of 1-14 mutations (40% Remove/Clean, facades, >=5 literal siblings) with state dump, Routes() and one simple witness per pool pattern after every step",
+        props=["C03"],
+        level_text="Theorems on the abstract route table that specifies the lifecycle (C03_remove_frame, C03_remove_all, C03_clean_exact, C03_handle_frame, C03_use_keeps_routes): removal touches exactly the named pattern, Clean(prefix) exactly the patterns with that prefix. Routes()/dispatch of the implementation are compared with this table after every step, with the documented resolver deciding the winner on simple witnesses, and earlier dispatches are re-checked after removals (frame).",
+        level_note="partial: the refinement tree-state -> table (abs commutes with add/remove/clean) is checked by the dump correspondence and the oracles on every step, not proved.",
+        partial=["C03_refinement (abs_tree (step t op) = table_step (abs_tree t) op) not proved"]),
+    "C04": rt(350, 6000, ["serve-options", "serve-405"],
+        "histories as C03 (40% removals, WithTrace 50%) with OPTIONS and an unused method on every pool pattern and OPTIONS * after every step",
+        props=["C04"],
+        level_text="C04_spec_exact / C04_spec_has_options / C04_spec_head_iff_get / C04_spec_trace: the specified Allow set of a route is exactly registered methods + HEAD iff GET + OPTIONS + TRACE iff configured, for every entry. Node methods, Allow of OPTIONS/405 and Routes() of the implementation are compared with it after every step; OPTIONS * against the used-method set.",
+        level_note="partial: that the tree's bit-set and counters always equal the table's (I6/I8) is checked on every step, not proved.",
+        partial=["C04_allow_exact over tree histories not proved"]),
+    "C05": rt(500, 10000, ["serve", "handle-rejected"],
+        "40% malformed / arbitrary-byte patterns, reserved/unknown/duplicate methods, raw paths ('', '*', NUL, 0xff, long), Remove/Clean histories, URL and CheckSyntax on the same strings; every call under recover()",
+        props=["TreeMatch"],
+        level_text="C05_match_no_panic: for every tree whose nodes satisfy the index invariant idx_ok and every path/params, matching never faults (with fuel >= height); C05_build_indexes_ok / C05_sort_node_idx_ok: every index the code builds satisfies idx_ok. Every Go fault site of the modelled code is an explicit Panic result in the model, compared with the implementation's recover() classification.",
+        level_note="partial: idx_ok is proved for every freshly built index but its preservation through the whole-tree update functions is checked at run time (state dump), not proved; net/http glue is exercised only.",
+        partial=["C05_serve_total over histories not proved"]),
+    "C08": rt(300, 5000, ["script"],
+        "add/remove histories of GET/POST/HEAD/OPTIONS/TRACE/BOGUS on three patterns; after every step HEAD/GET/OPTIONS probes and a random handler script (0-6 events: Set/Add/Del header, WriteHeader, Write 0/1/2/13/1000) run under GET and HEAD on a non-sniffing writer",
+        props=["C08head", "C17"],
+        level_text="Theorems over ALL handler scripts (induction with a simulation invariant): C08_head_no_body, C08_head_same_status_and_headers (guard: no header mutation/WriteHeader after the first un-preceded Write), C08_head_content_length, C08_get_body; C08_late_event_refutes_unguarded shows the guard is necessary (known finding F20). C08_reserved_rejected: OPTIONS/HEAD/(TRACE)/unknown methods are always rejected.",
+        level_note="the writer is the documented http.ResponseWriter contract (first WriteHeader/Write freezes status+headers), tied to the harness's own recording writer; HEAD iff GET over histories is judged by the oracle on the abstract table.",
+        trust=["http.ResponseWriter contract modelled (Model/Http.v), net/http itself not verified"]),
+    "C09": rt(350, 6000, ["serve-user", "serve-405", "serve-options"],
+        "programs interleaving Use, Prefix/Resource creation (nesting <= 4) and Handle with per-route middlewares; every handler kind probed; the full wrapped handler term is compared",
+        props=["C09table"],
+        level_text="C09_table_is_rendered_records: for every history of Handle/Remove/Clean/Use the stored handler of every (pattern, method) is the registration's core wrapped by the registration's middlewares (call's own, then facade's) and then by ALL Router.Use middlewares in order - whatever the interleaving; C09_apply_mw_nesting: later list elements are outer, every layer carries (method, pattern, router); C09_auto_handlers_keep_first_registration.",
+        level_note="proved on the abstract table machine; the tree stores exactly these terms (compared structurally on every probe).",
+        trust=["middleware factories are symbolic (HWrap terms); the harness's factories record their arguments"]),
+    "C10": rt(500, 8000, ["url-ok", "url-err"],
+        "well-formed and documented-malformed patterns x params maps (present/missing/extra keys, arbitrary bytes, prefix/suffix/infix matches) x strict/non-strict x live/non-live; through Router and facades",
+        props=["C10"],
+        level_text="C10_url_segs_closed_form (URL = segments with parameters substituted, fails iff one is missing), C10_roundtrip (building a matched route from its captured parameters reproduces the path), C10_strict_validates (every parameter kind validated over its whole length), C10_strict_not_a_route.",
+        level_note="stated on parsed segments; the agreement of the code's Split with the independent tokenizer is decided by the oracle (instantiate over tokens) on every case."),
+    "C11": rt(250, 4000, ["creq"],
+        "CORS configurations (origins none/*/list/list+*, allow-headers none/*/list, exposed, max-age, credentials) x 40 random requests per case over method, path (live, unknown, *), Origin, ACRM, ACRH classes; thorough tier adds the exhaustive product (suite C11x)",
+        suite="C11", props=["C11"],
+        level_text="C11_acao_sound, C11_acao_single, C11_credentials, C11_no_origins_no_grant, C11_unserved_preflight_method, C11_disallowed_header, C11_header_check_is_case_insensitive over every configuration, node method set and request (all byte strings).",
+        level_note="404/405 never reach the CORS code (serveContext calls it only when a handler was found): part of the model's creq_obs, compared on every case."),
+    "C12": rt(250, 4000, ["creq"],
+        "as C11", suite="C12", props=["C12"],
+        level_text="C12_grant_partial(_hyp), C12_preflight_partial(_hyp), C12_not_preflight, C12_vary, C12_sanitize_rejects: exact header values for allowed requests, over every configuration and request.",
+        level_note="C12_grant / C12_preflight as first stated are false for a configured header list consisting of one empty string (joined to \"\" = not configured); proved with that case excluded (_partial_hyp) and in closed form (_partial)."),
+    "C13": rt(300, 5000, ["greq-U:h1", "greq-U:h2", "greq-NA", "greq-OP"],
+        "groups of 1-4 routers with Hosts / path-version / header-version / nil / And-Or nests (depth <= 2) in which an early member mutates and a later one rejects; Add/New/Remove/Use histories; 14 requests per case over hosts x version prefixes x Accept x paths",
+        suite="C13", props=["C13"],
+        level_text="C13_reject_clean (by induction over the matcher AST: a rejecting matcher, also inside And/Or, leaves request and parameters untouched), C13_first_accepting, C13_none_accepts, C13_or_first, C13_and_accepts_all, C13_names_unique, C13_add_duplicate_rejected, C13_remove, C13_notfound_wrapped.",
+        level_note="Hosts members are assumed 'clean' (hosts_clean: a rejection leaves the parameters alone), which holds when route parameter names are disjoint from names already in the context; custom matchers are outside the model."),
+    "C14": rt(300, 5000, ["hmatch-accept"],
+        "Add/Delete/RegisterInterceptor histories over >=6 literal domains + parameterised domains in mixed case; hosts in any case, with ports, brackets, invalid ports, '', '*'; dump after every step",
+        suite="C14", props=["C14"],
+        level_text="C14_normalise_is_lower, C14_strip_port_valid/_invalid, C14_strip_brackets, C14_add_ci, C14_delete_ci, C14_match_uses_normalised; matching itself is the shared tree (C01/C02 theorems).",
+        level_note="partial: resolution of the normalised host against the registered domains is decided by the extracted resolver on add-only histories and simple witnesses; non-ASCII hosts are outside the model (strings.ToLower is Unicode-aware)."),
+    "C15": rt(300, 5000, ["pv-accept", "hv-accept"],
+        "version lists with/without slashes, overlapping names (v1, v11, v1/x), paths with recurring version text, arbitrary bytes; Accept headers well-formed/garbage (mime.ParseMediaType result supplied by Go)",
+        suite="C15", props=["C15"],
+        level_text="C15_path_closed_form, C15_path_one_segment, C15_path_first_wins, C15_path_reject_untouched, C15_norm, C15_header_accept, C15_header_complete, C15_header_reject_untouched over all byte strings.",
+        level_note="mime.ParseMediaType is a parameter (its result is part of the case)."),
+    "C16": rt(300, 5000, ["recovered", "escaped"],
+        "Router, Group and Group.New routers with/without recovery (inherited / overridden); panics (string, error, int, struct) raised in route handlers, 404/405/OPTIONS/TRACE/group-404 handlers and before/after every middleware layer; sequences of raising and normal requests",
+        suite="C16", props=["C16"],
+        level_text="C16_contained, C16_passthrough, C16_router, C16_first_value_wins, C16_inner_before_after, C16_after_phase, C16_no_raise_no_recovery, C16_group_notfound over every handler term and raise table.",
+        level_note="user functions are symbolic (raise tables); panic(nil) excluded; a panicking matcher or recovery function is outside the property."),
+    "C17": rt(300, 5000, ["handle-rejected"],
+        "tables x Handle calls with valid/duplicate/reserved/unknown methods in every position (45%), malformed patterns (25%), patterns equal up to names; dump + Routes + witnesses + Allow + OPTIONS * before and after every call",
+        props=["C17"],
+        level_text="C17_check_methods_ok_iff (a method list is accepted iff all methods are known, not reserved, not registered and not repeated), C17_duplicate_rejected, C17_repeated_method_rejected, C17_add_methods_rejects_before_changing; a rejected call returns an error value and no new state in the model (tree_add : res tree).",
+        level_note="partial: 'nothing observable changes' is decided by comparing every observation before/after rejected calls on the implementation (and the dumped tree against the model); the ambiguity clauses are decided by the oracle same_up_to_names.",
+        partial=["C17_ambiguous_pair / C17_no_false_ambiguity not proved (oracle only)"]),
+    "C18": rt(300, 5000, ["serve-trace", "tracehelper"],
+        "routers with WithTrace 70%: TRACE on live/unknown/raw paths, Allow probes, Use; the Trace helper on requests with HTML metacharacters, with/without body",
+        props=["C18", "C08head"],
+        level_text="C18_trace_any_path, C18_trace_only_use_middlewares, C18_trace_cannot_be_registered, C18_without_option_trace_is_ordinary, C18_new_tree_trace, C18_trace_helper (status 200, Content-Type message/http in the SENT headers, body = escaped dump).",
+        level_note="httputil.DumpRequest and html.EscapeString are parameters of C18_trace_helper."),
+    "C19": rt(300, 5000, ["handle-ok"],
+        "programs of facade calls (Prefix/Prefix.Prefix/Resource with middlewares, Handle, Remove, Clean, URL; empty prefixes, prefixes ending inside a token) run as written and desugared to Router calls on a twin router",
+        suite="C19", props=["C19"],
+        level_text="C19_prefix_handle, C19_nested_prefix_handle, C19_resource_handle, C19_prefix_remove/_clean/_url, C19_resource_remove/_clean/_url, C19_prefix_clean_table: every facade call equals the Router call on the concatenated pattern and middleware list.",
+        level_note="near-definitional in the model; the weight is on the three-way differential (implementation facade run vs implementation desugared run vs model)."),
     "C20": {
         "level_text": "Machine-checked theorems (C20_agree, C20_map_laws, C20_count_*, C20_pool_empty, C20_keys_unique) over all parameter sets, keys, defaults and all histories of Set/Delete/Reset/Destroy/NewContext of the Gallina model of types/context.go, relative to an arbitrary strconv; the model is tied to the code by running the same histories on both and comparing all 19 accessor results.",
         "level_note": "strconv is a theorem parameter (fed with Go's own results); sync.Pool modelled as a list; model/code tie is differential testing, not proof.",
         "quick": {"n": 400}, "thorough": {"n": 6000, "shards": 8},
-        "nontrivial_tags": ["probe-hit"],
+        "nontrivial_tags": ["probe-hit"], "props": ["C20"],
         "rule": "random histories of Set/Delete/Reset/Destroy+NewContext over 9 keys (incl. empty, NUL, 0xff) and ~45 values "
                 "(numeric edge cases, non-UTF-8, random bytes), probed with all 19 accessor results; a case is non-trivial when at "
                 "least one probe hits a present key; distinct = SHA-1 of the operation lines",
